@@ -120,6 +120,19 @@ func (r *checkRun) verifyRuntime(rp RuntimePlan) ([]*FuncResult, error) {
 	var results []*FuncResult
 	for _, f := range rp.Functions {
 		fns := v.FindFunctions(pkgPath + "." + f)
+		if len(fns) == 0 && strings.HasPrefix(f, "fxParser.") {
+			// other fixtures name their parser type differently: take the unique type with this method
+			m := strings.TrimPrefix(f, "fxParser")
+			var cands []string
+			for k := range v.funcsByKey {
+				if strings.HasPrefix(k, pkgPath+".") && strings.HasSuffix(k, m) && !strings.Contains(k, "._Stack.") && !strings.Contains(k, "._LexerStateMachine.") && strings.Count(strings.TrimPrefix(k, pkgPath+"."), ".") == 1 {
+					cands = append(cands, k)
+				}
+			}
+			if len(cands) == 1 {
+				fns = v.FindFunctions(cands[0])
+			}
+		}
 		disp0 := "runtime." + f + "@" + rp.Fixture
 		if len(fns) == 0 {
 			results = append(results, &FuncResult{Key: disp0, Err: "runtime function not found in the rendered fixture"})
